@@ -294,8 +294,12 @@ def cargo_build(bins, release=False, package=None, timeout=3000):
         cmd.append("--release")
     if package:
         cmd += ["-p", package]
-    for b in bins:
-        cmd += ["--bin", b]
+        for b in bins:
+            cmd += ["--bin", b]
+    else:
+        # convention: binary cxx lives in workspace package kvh-cxx (harness/p/cxx)
+        for b in bins:
+            cmd += ["-p", "kvh-" + b]
     with FileLock("cargo"):
         # keep the lockfile in step with /repo's (copied, never generated)
         try:
